@@ -38,6 +38,7 @@ var (
 	fBudget   = flag.Duration("verif.budget", 0, "wall-clock budget (worker/check)")
 	fWorkers  = flag.Int("verif.workers", 0, "worker processes (default: number of CPUs)")
 	fReplay   = flag.String("verif.replay", "", "replay file")
+	fRehash   = flag.Bool("verif.rehash", false, "replay: if the violation recurs with another event log, record this process's log hash in the file")
 	fScenario = flag.String("verif.scenario", "", "scenario (one)")
 	fOut      = flag.String("verif.out", "", "output directory (evidence, replays)")
 	fKnown    = flag.String("verif.known", "", "known-findings file")
@@ -120,6 +121,7 @@ type workerLine struct {
 	Probes     map[string]int `json:"probes,omitempty"`
 	Viol       []Violation    `json:"viol,omitempty"`
 	OtherViol  int            `json:"other_viol,omitempty"`
+	OtherCls   map[string]int `json:"other_cls,omitempty"` // "<property>:<class>" of violations that belong to other properties' checks
 	Herr       string         `json:"herr,omitempty"`
 	Outcome    string         `json:"outcome"`
 	Config     string         `json:"config,omitempty"`
@@ -150,6 +152,18 @@ func workerMain(t *testing.T) {
 			Nontrivial: res.Nontrivial, Faults: res.Faults, Probes: res.Probes, Herr: res.HarnessErr, Outcome: res.Outcome, Multi: res.Multi, Ties: res.TimerTies, NDec: res.NDecisions}
 		wl.Viol = ownViolations(*fProp, res)
 		wl.OtherViol = len(res.Violations) - len(wl.Viol)
+		if wl.OtherViol > 0 {
+			wl.OtherCls = map[string]int{}
+			for _, v := range res.Violations {
+				vp := v.Prop
+				if vp == "PANIC" {
+					vp = panicOwner[res.Spec.Scenario]
+				}
+				if vp != *fProp {
+					wl.OtherCls[vp+":"+v.Class]++
+				}
+			}
+		}
 		if idx%50 == 0 || len(wl.Viol) > 0 {
 			wl.Config = res.Config
 		}
@@ -291,6 +305,12 @@ func replayMain(t *testing.T) {
 	}
 	if res.Hash != rf.Hash {
 		fmt.Printf("HASH-MISMATCH recorded=%s now=%s\n", rf.Hash, res.Hash)
+		if *fRehash {
+			rf.Hash = res.Hash
+			if js, err := json.MarshalIndent(&rf, "", " "); err == nil {
+				writeFileAtomic(*fReplay, js)
+			}
+		}
 		os.Exit(4)
 	}
 	// exit status 1: the violation reproduced exactly
@@ -497,6 +517,7 @@ type aggregate struct {
 	recheckIdx []int
 	samples    []map[string]interface{}
 	otherViol  int
+	otherCls   map[string]int
 	multi      int64
 	ties       int64
 	states     int
@@ -527,6 +548,12 @@ func (a *aggregate) add(wl workerLine) {
 	a.scen[wl.Scenario]++
 	a.outcomes[wl.Outcome]++
 	a.otherViol += wl.OtherViol
+	for k, n := range wl.OtherCls {
+		if a.otherCls == nil {
+			a.otherCls = map[string]int{}
+		}
+		a.otherCls[k] += n
+	}
 	if wl.Herr != "" {
 		a.herr = append(a.herr, fmt.Sprintf("run %d seed %d: %s", wl.Idx, wl.Seed, wl.Herr))
 	}
@@ -869,6 +896,13 @@ func checkMain(t *testing.T) {
 		}
 		if mhung || merr != nil || !mr.OK {
 			if mr.Err == "not-reproduced" {
+				// (two fresh processes that agree with each other: the simulator is deterministic, the
+				// worker's result depended on what the library remembered from its earlier runs)
+				if h1, h2 := freshHash(prop, wl.Idx), freshHash(prop, wl.Idx); h1 != "" && h1 == h2 {
+					fmt.Printf("note: violation class %s, seen in a worker process that had executed other runs before, does not recur in a fresh process (the library keeps state across runs); not reported\n", class)
+					historyDependent++
+					continue
+				}
 				fmt.Printf("NONDETERMINISM: violation %s of run %d (seed %d) did not recur when re-executed\n", class, wl.Idx, wl.Seed)
 			} else {
 				fmt.Printf("CHECK-ERROR: minimisation of %s (run %d seed %d) failed: hung=%v err=%v %s\n%s\n", class, wl.Idx, wl.Seed, mhung, merr, mr.Err, tailStr(firstFatal(mbuf.String()), 1500))
@@ -886,6 +920,40 @@ func checkMain(t *testing.T) {
 			code = ee.ExitCode()
 		} else if err != nil {
 			code = -1
+		}
+		freshReplay := func(extra ...string) (int, string) {
+			c := exec.Command(selfExe(), append([]string{"-test.run", "^TestVerif$", "-verif.mode", "replay", "-verif.replay", path}, extra...)...)
+			ob, err := c.CombinedOutput()
+			if ee, ok := err.(*exec.ExitError); ok {
+				return ee.ExitCode(), strings.TrimSpace(string(ob))
+			} else if err != nil {
+				return -1, strings.TrimSpace(string(ob))
+			}
+			return 0, strings.TrimSpace(string(ob))
+		}
+		if code == 4 {
+			// The violation recurs in a fresh process, with another event log than in the process
+			// that minimised it: the code under test keeps state across runs (the minimiser
+			// executes many candidates in one process). The replay file is re-based on the fresh
+			// process, which is what a replay is; it must then reproduce exactly.
+			freshReplay("-verif.rehash")
+			if c2, _ := freshReplay(); c2 == 1 {
+				fmt.Printf("note: replay %s re-based on a fresh process (the library keeps state across runs)\n", path)
+				historyDependent++
+				code = 1
+			}
+		}
+		if code == 3 {
+			// Not there at all in a fresh process. If two fresh processes agree with each other the
+			// simulator is deterministic and the difference is the library's own memory of earlier
+			// runs in the worker: no faithful single-run replay exists, the class is not reported.
+			_, o1 := freshReplay()
+			_, o2 := freshReplay()
+			if o1 == o2 && o1 != "" {
+				fmt.Printf("note: violation class %s, seen in a worker process that had executed other runs before, does not recur in a fresh process (the library keeps state across runs); not reported\n", class)
+				historyDependent++
+				continue
+			}
 		}
 		if code != 1 {
 			fmt.Printf("NONDETERMINISM: minimised replay %s did not reproduce in a fresh process (exit %d): %s\n", path, code, strings.TrimSpace(string(outb)))
@@ -930,9 +998,10 @@ func checkMain(t *testing.T) {
 		"determinism_recheck_failures":     len(agg.recheckBad) - historyDependent,
 		"history_dependent_runs":           historyDependent,
 		"violations_of_other_properties_seen_not_reported": agg.otherViol,
-		"known_findings_hit": knownHit,
-		"violation_reports":  vio,
-		"workers":            workers,
+		"violations_of_other_properties_by_class":          agg.otherCls,
+		"known_findings_hit":                               knownHit,
+		"violation_reports":                                vio,
+		"workers":                                          workers,
 		"components_real": []string{"knx.Tunnel/GroupTunnel/Router/GroupRouter/DescribeTunnel/Discover (tunnel.go, router.go, groups.go, describe.go, discover.go: instrumented by simgen T1-T6 from /repo's working tree)",
 			"knxnet.TunnelSocket/RouterSocket/serveUDPSocket/serveTCPSocket (socket.go: T1-T7)", "all Pack/Unpack/Size code of knxnet, cemi, util, dpt (unmodified)"},
 		"components_stub": []string{"net + x/net/ipv4 + kernel buffers + wire: simnet", "time, sync, math/rand, goroutine scheduling: simrt (+ testing/synctest for quiescence)",
